@@ -16,11 +16,14 @@ Require Import Parser Resolver Loader.
 Local Open Scope nat_scope.
 
 (* ---------- (1) nesting depth of events ---------- *)
-(* (collections currently open, maximum so far) *)
+(* (collections currently open, largest number of collections that enclosed a node so far).
+   A node is a scalar, an alias or a collection; a node inside k collections has k ancestors, so the
+   second component is the height of the tallest document tree (0 for a lone scalar or an empty collection). *)
 Definition depth_step (cm : nat * nat) (e : event) : nat * nat :=
   let '(c, m) := cm in
   match e with
-  | ESequenceStart _ _ | EMappingStart _ _ => (S c, Nat.max m (S c))
+  | ESequenceStart _ _ | EMappingStart _ _ => (S c, Nat.max m c)
+  | EScalar _ _ _ _ | EAlias _ => (c, Nat.max m c)
   | ESequenceEnd | EMappingEnd => (Nat.pred c, m)
   | _ => (c, m)
   end.
